@@ -221,6 +221,18 @@ def iter_history(ctx, P, cfg, keys, ops, scratch, oracle, on_new=None, stats=Non
                 model.counts[fp] = int(seen) if cfg.counting else (1 if seen else 0)
                 if not model.counts[fp]:
                     del model.counts[fp]
+        elif kind == "burst":
+            # the same key many times in a row (a hot key): one model step.  Only used once the key is stored, so no call can fail.
+            key, n = op[1], op[2]
+            fp = cfg.raw_fp(key)
+            ret = None
+            if model.counts[fp] > 0:
+                for _ in range(n):
+                    ret = f.add(key)
+                if cfg.counting:
+                    model.counts[fp] += n
+                stats["burst_additions"] += n
+            outcome = ("ok", ret)
         elif kind == "remove":
             key = op[1]
             fp = cfg.raw_fp(key)
